@@ -30,6 +30,11 @@ func (q QualifierIO) String() string {
 	case LiteralQualifier:
 		return fmt.Sprintf("/%s=%s", name, value)
 	case ToggleQualifier:
+		if value != "" && !searchString(name, builtinQualifierNames) {
+			// The name was only learnt as a flag from a bare occurrence in
+			// some record read earlier; its value here must not be dropped.
+			return fmt.Sprintf("/%s=\"%s\"", name, value)
+		}
 		return "/" + name
 	default:
 		return fmt.Sprintf("/%s=\"%s\"", name, value)
@@ -98,10 +103,18 @@ var (
 	}
 )
 
+// builtinQualifierNames are the names gts starts out with a type for, as
+// opposed to the ones whose form it learns while reading.
+var builtinQualifierNames []string
+
 func init() {
 	sort.Strings(QuotedQualifierNames)
 	sort.Strings(LiteralQualifierNames)
 	sort.Strings(ToggleQualifierNames)
+	builtinQualifierNames = append(builtinQualifierNames, QuotedQualifierNames...)
+	builtinQualifierNames = append(builtinQualifierNames, LiteralQualifierNames...)
+	builtinQualifierNames = append(builtinQualifierNames, ToggleQualifierNames...)
+	sort.Strings(builtinQualifierNames)
 }
 
 // RegisterQuotedQualifier registers the given qualifier names as being a
@@ -314,7 +327,22 @@ func QualifierParser(prefix string) pars.Parser {
 			}
 		default:
 			if err := valueParsers[qtype](state, result); err != nil {
-				return err
+				if searchString(name, builtinQualifierNames) {
+					return err
+				}
+				// The form of a name gts has no type for is learnt from its
+				// first occurrence, but a flag may well carry a value elsewhere
+				// and a valued name may appear bare: read the form that is there.
+				ok := false
+				for t, parser := range valueParsers {
+					if QualifierType(t) != qtype && parser(state, result) == nil {
+						ok = true
+						break
+					}
+				}
+				if !ok {
+					return err
+				}
 			}
 		}
 
